@@ -33,6 +33,8 @@ def run(prog, chk):
         "the above / below anchor filters of abvm / blwm are complementary by construction and each feature uses its own (R06.13)",
         "the ligature component number is the whole trailing run of digits of the anchor name (regex AST of LIGA_NUM_RE) (R06.14)",
     ]
+    chk.decided += ["a mark feature is only dropped when it would be empty: the nothing-to-write return of each feature builder tests every lookup list that is written into the feature "
+                    "(a feature holding only mark-to-mark lookups is still emitted) (R06.17)"]
     chk.decided += ["the mark-class conflict graph is complete and symmetric: for every mark glyph, every pair of its classes is connected in both directions before the graph is coloured "
                     "(two classes of one glyph never share a lookup, where only one of them could apply) (R06.16)"]
     chk.decided += ["every collected contextual anchor reaches a contextual lookup: the three contextual tables are enumerated in full (no glyph filter: the abvm / blwm builder makes no contextual lookups), "
@@ -53,6 +55,7 @@ def run(prog, chk):
     chk.guard(r0614, prog, chk)
     chk.guard(r0615, prog, chk)
     chk.guard(r0616, prog, chk)
+    chk.guard(r0617, prog, chk)
     from .rounding import check_no_truthiness_on_coordinates
     n = check_no_truthiness_on_coordinates(prog, chk, "R06.9", [MARK, "ufo2ft.featureWriters.baseFeatureWriter"])
     need(n >= 40, "truthiness scan found too few tests")
@@ -857,7 +860,72 @@ def r0616(prog, chk):
     chk.minimum("R06.16", 1)
 
 
+# ----------------------------------------------------------------------------- R06.17
+def r0617(prog, chk):
+    ix = prog.ix
+    W = f"{MARK}.MarkFeatureWriter"
+    n = 0
+    for mname in ("_makeMarkFeature", "_makeMkmkFeature", "_makeAbvmOrBlwmFeature"):
+        f = ix.get_method(W, mname, own=True)
+        feats = {st.targets[0].id for st in A.stmts_of(f.node) if isinstance(st, ast.Assign) and len(st.targets) == 1 and isinstance(st.targets[0], ast.Name)
+                 and isinstance(st.value, ast.Call) and A.callee_name(st.value) == "FeatureBlock"}
+        need(len(feats) == 1, f"cannot interpret {f.short}: feature block")
+        feat = next(iter(feats))
+
+        def bases(e, depth=0) -> Set[str]:
+            """the lookup lists an expression is made of"""
+            if isinstance(e, ast.BinOp) and isinstance(e.op, ast.Add):
+                return bases(e.left, depth) | bases(e.right, depth)
+            if isinstance(e, ast.Call) and isinstance(e.func, ast.Name) and e.func.id in ("list", "sorted", "tuple", "any", "all", "len", "bool") and e.args:
+                return bases(e.args[0], depth)
+            if isinstance(e, ast.Call) and isinstance(e.func, ast.Attribute) and e.func.attr in ("values", "keys", "items") and not e.args:
+                return bases(e.func.value, depth)
+            if isinstance(e, (ast.List, ast.Tuple)):
+                out = set()
+                for x in e.elts:
+                    out |= bases(x, depth)
+                return out
+            if isinstance(e, ast.Name):
+                ds = prog.reaching(f, e.id, e)
+                if depth < 4 and len(ds) == 1 and ds[0].kind == "assign" and ds[0].value is not None and ds[0].element()[1] is None \
+                        and not (isinstance(ds[0].value, (ast.List, ast.Dict)) and not getattr(ds[0].value, "elts", getattr(ds[0].value, "keys", None))):
+                    inner = bases(ds[0].value, depth + 1)
+                    if inner:
+                        return inner
+                return {e.id}
+            return set()
+        contrib: Set[str] = set()
+        for c in A.body_nodes(f.node):
+            if isinstance(c, ast.Call) and isinstance(c.func, ast.Attribute) and c.func.attr in ("append", "extend") and T(c.func.value) == f"{feat}.statements" and c.args:
+                a = c.args[0]
+                if c.func.attr == "extend":
+                    contrib |= bases(a)
+                else:
+                    loops = [x for x in ix.ancestors(c) if isinstance(x, ast.For)]
+                    if loops and any(isinstance(y, ast.Name) and y.id in A.target_names(loops[0].target) for y in ast.walk(a)):
+                        contrib |= bases(loops[0].iter)
+        need(contrib, f"cannot interpret {f.short}: nothing is written into the feature block")
+        empties = [r for r in A.returns_of(f.node) if r.value is None or A.is_const(r.value, None) or (isinstance(r.value, ast.Tuple) and r.value.elts and A.is_const(r.value.elts[0], None))]
+        need(empties, f"cannot interpret {f.short}: nothing-to-write return")
+        for r in empties:
+            n += 1
+            tested: Set[str] = set()
+            for g in conds(prog, f, r):
+                if g.polarity in (True, False):
+                    for x in ast.walk(g.test):
+                        if isinstance(x, ast.Name) and isinstance(x.ctx, ast.Load):
+                            tested |= bases(x)
+            missing = sorted(contrib - tested)
+            chk.ob("R06.17", f"{f.short}|the feature is dropped only when every lookup list written into it is empty", not missing, where(f, r), detail=f"written: {sorted(contrib)}; tested: {sorted(tested & contrib)}",
+                   message=f"{f.short}: the feature is dropped without looking at {missing}: a feature that only holds those lookups is not emitted and their attachments exist nowhere in GPOS")
+    chk.minimum("R06.17", 3)
+
+
 MUTANTS = [
+    M("abvm / blwm dropped when it only holds mark-to-mark lookups (seeded C06j)", "ufo2ft/featureWriters/markFeatureWriter.py", "MarkFeatureWriter._makeAbvmOrBlwmFeature",
+      "any([baseLkps, ligaLkps, mkmkLookups])", "any([baseLkps, ligaLkps])", rule="R06.17"),
+    M("mark feature dropped when it only holds contextual lookups", "ufo2ft/featureWriters/markFeatureWriter.py", "MarkFeatureWriter._makeMarkFeature",
+      "not baseLkps and (not ligaLkps) and (not ctxLkps)", "not baseLkps and (not ligaLkps)", rule="R06.17"),
     M("conflict edges added in one direction only (mutation scan 3, k=120)", "ufo2ft/featureWriters/markFeatureWriter.py", "MarkFeatureWriter._groupMarkClasses",
       "adjacency[markClass].add(other)\nadjacency[other].add(markClass)", "adjacency[markClass].add(other)", rule="R06.16"),
     M("only adjacent classes of a glyph conflict", "ufo2ft/featureWriters/markFeatureWriter.py", "MarkFeatureWriter._groupMarkClasses",
